@@ -9,7 +9,7 @@ Lemma step_rd sess me alt nd a res :
   AInv sess a ->
   thread_step me RRd alt nd a (get_thr a RRd) = res ->
   match res with
-  | Ok (nd', a', t') => AInv sess (set_thr a' RRd t') /\ node_frame nd nd'
+  | Ok (nd', a', t') => (AInv sess (set_thr a' RRd t') /\ delta me RRd a nd nd' (set_thr a' RRd t')) /\ node_frame nd nd'
   | Blocked => True
   | Panic site => cclosed (n_pcd nd) = true /\ site = "send on closed channel"%string
   end.
